@@ -132,6 +132,8 @@ def evaluate(sub, case, stats=None):
         stats.ratio = max(stats.ratio, rec.ratio)
         for t in rec.tags:
             stats.tags[t] += 1
+        for t, k in rec.counts.items():
+            stats.tags[t] += k
         if rec.nontrivial:
             stats.nontrivial.add(lib.digest(case))
             fam = str(case.get('family', case.get('kind', '')))
